@@ -251,3 +251,29 @@ func init() {
 		return callNative(fr, "math/big.ParseFloat", nf, a, fn.Signature)
 	})
 }
+
+// (*big.Int).Lsh by a symbolic amount: the core model ends the path as
+// unsupported.  For C09 the interesting question is whether the amount can
+// exceed 2^37 (a result of more than 2^31 words: unbounded allocation, natively
+// "makeslice: len out of range" or an out-of-memory crash); below that the
+// core model decides as before.
+func init() {
+	const name = "(*math/big.Int).Lsh"
+	orig := intrinsics[name]
+	reg(name, func(fr *frame, fn *ssa.Function, args []Val) Val {
+		if t, isT := args[2].(*Term); isT {
+			if in.ex.branch(in.path, mkCmp(OUlt, mkBV(uint64(1)<<37, 64), toBV(t, 64))) {
+				in.path.faults = append(in.path.faults, faultRec{kind: "hugealloc", site: "math/big.(*Int).Lsh", msg: "shift count can exceed 2^37 bits (2^31 words)"})
+				panic(pathEnd{"hugealloc", "math/big.(*Int).Lsh"})
+			}
+			// a small symbolic amount: fork over its values
+			if in.ex.branch(in.path, mkCmp(OUle, toBV(t, 64), mkBV(64, 64))) {
+				args = []Val{args[0], args[1], concretize(t, 64, 0, 64)}
+			}
+		}
+		if orig == nil {
+			unsupported("big.Int.Lsh: no core model registered")
+		}
+		return orig(fr, fn, args)
+	})
+}
